@@ -48,12 +48,53 @@ type Attr struct {
 	// Res: 0 direct resource dictionary, 1 indirect resource dictionary,
 	// 2 none (dictionary API: key absent; page API: nil Resources).
 	Res int `json:"res"`
+	// MediaD / CropD index boxDeltas: a perturbation of one coordinate of the
+	// box (MediaBox: URx, CropBox: LLx), so that near-equal but different
+	// boxes meet under one parent.  0 is the unperturbed box.
+	MediaD int `json:"media_d,omitempty"`
+	CropD  int `json:"crop_d,omitempty"`
+}
+
+// boxDeltas perturb a coordinate b.  Several of them differ from each other
+// by less than 0.005, i.e. they agree when rounded to two decimals.
+var boxDeltas = []func(b float64) float64{
+	func(b float64) float64 { return b },
+	func(b float64) float64 { return b + 0.001 },
+	func(b float64) float64 { return b - 0.001 },
+	func(b float64) float64 { return b + 0.004 },
+	func(b float64) float64 { return b - 0.004 },
+	func(b float64) float64 { return b + 0.0049 },
+	func(b float64) float64 { return b - 0.0049 },
+	func(b float64) float64 { return b + 0.005 },
+	func(b float64) float64 { return b - 0.005 },
+	func(b float64) float64 { return b + 0.01 },
+	func(b float64) float64 { return b - 0.01 },
+	func(b float64) float64 { return b + 1e-6 },
+	func(b float64) float64 { return b + 0.276 },
+	func(b float64) float64 { return float64(float32(b + 0.276)) },
+	func(b float64) float64 { return b + 0.28 },
+}
+
+// mediaBoxOf / cropBoxOf return the exact box a page is given.
+func mediaBoxOf(at Attr) [4]float64 {
+	b := mediaBoxes[at.Media]
+	out := [4]float64{float64(b[0]), float64(b[1]), float64(b[2]), float64(b[3])}
+	out[2] = boxDeltas[at.MediaD](out[2])
+	return out
+}
+
+func cropBoxOf(at Attr) [4]float64 {
+	b := cropBoxes[at.Crop-1]
+	out := [4]float64{float64(b[0]), float64(b[1]), float64(b[2]), float64(b[3])}
+	out[0] = boxDeltas[at.CropD](out[0])
+	return out
 }
 
 var (
 	mediaBoxes = [][4]int{{0, 0, 612, 792}, {0, 0, 595, 842}, {0, 0, 200, 200}}
 	cropBoxes  = [][4]int{{10, 10, 100, 100}, {20, 20, 150, 150}}
-	rotations  = []int{0, 90, 180, 270}
+	// 360 and -90 can only be given through a raw page dictionary
+	rotations = []int{0, 90, 180, 270, 360, -90}
 	// PDF 1.4 files have no object streams and are much cheaper to read back;
 	// they carry most of the cases.
 	versions = []pdf.Version{pdf.V1_2, pdf.V1_4, pdf.V1_7, pdf.V2_0}
@@ -72,7 +113,8 @@ type Action struct {
 	Attr Attr `json:"attr"`
 	// Pattern says how the pages of a burst differ from the base attributes:
 	// 0 not at all; 1 every Period-th page gets Alt instead; 2 each page is
-	// drawn from Seed (half of them are the base attributes).
+	// drawn from Seed (half of them are the base attributes); 3 each page has
+	// the base attributes with box perturbations drawn from Seed.
 	Pattern int    `json:"pattern,omitempty"`
 	Period  int    `json:"period,omitempty"`
 	Alt     Attr   `json:"alt"`
@@ -108,6 +150,9 @@ type observed struct {
 	nextOnClosed   int
 	mediaAbsent    bool
 	implicitClosed int
+	nearEqual      bool // siblings with boxes that differ but agree to two decimals
+	nearEqualTyped bool // ... both given as *pdf.Rectangle (AppendPage / AppendPageRef)
+	rot360         bool
 }
 
 // normAttr forces an attribute record into the legal domain for the version.
@@ -122,7 +167,18 @@ func normAttr(a Attr, version int) Attr {
 		a.Media = 0
 	}
 	a.Crop = mod(a.Crop, 3)
-	a.Rot = mod(a.Rot, 5)
+	a.Rot = mod(a.Rot, 7)
+	if a.Rot > 4 && a.API != 0 {
+		a.Rot -= 4 // page.Rotation has no 360 / -90
+	}
+	a.MediaD = mod(a.MediaD, len(boxDeltas))
+	a.CropD = mod(a.CropD, len(boxDeltas))
+	if a.Media == 3 {
+		a.MediaD = 0
+	}
+	if a.Crop == 0 {
+		a.CropD = 0
+	}
 	a.Res = mod(a.Res, 3)
 	return a
 }
@@ -153,6 +209,18 @@ func (a *Action) pageAttr(k int, version int, rnd *vt.Rand) Attr {
 				Rot: int(v >> 16 % 5), Res: int(v >> 24 % 2)}
 			return normAttr(at, version)
 		}
+	}
+	if a.Pattern == 3 {
+		// a cluster of near-equal boxes around the base attributes, mostly
+		// on typed pages (*pdf.Rectangle values)
+		v := rnd.Uint64()
+		at := a.Attr
+		at.MediaD = int(v % uint64(len(boxDeltas)))
+		at.CropD = int(v >> 8 % uint64(len(boxDeltas)))
+		if v>>16&3 != 0 && at.API == 0 {
+			at.API = 1 + int(v>>18&1)
+		}
+		return normAttr(at, version)
 	}
 	return normAttr(a.Attr, version)
 }
@@ -228,12 +296,20 @@ type cbRecord struct {
 	values []int
 }
 
-func rectArray(b [4]int) pdf.Array {
-	return pdf.Array{pdf.Integer(b[0]), pdf.Integer(b[1]), pdf.Integer(b[2]), pdf.Integer(b[3])}
+func rectArray(b [4]float64) pdf.Array {
+	out := make(pdf.Array, 4)
+	for i, x := range b {
+		if x == float64(int64(x)) {
+			out[i] = pdf.Integer(x)
+		} else {
+			out[i] = pdf.Real(x)
+		}
+	}
+	return out
 }
 
-func rectPtr(b [4]int) *pdf.Rectangle {
-	return &pdf.Rectangle{LLx: float64(b[0]), LLy: float64(b[1]), URx: float64(b[2]), URy: float64(b[3])}
+func rectPtr(b [4]float64) *pdf.Rectangle {
+	return &pdf.Rectangle{LLx: b[0], LLy: b[1], URx: b[2], URy: b[3]}
 }
 
 // procSetFor returns the per-page marker which goes into the resources of
@@ -330,10 +406,10 @@ func checkCase(c *Case) error {
 			mp.ref = ref
 			d := pdf.Dict{"Type": pdf.Name("Page"), "StructParents": pdf.Integer(id)}
 			if at.Media < 3 {
-				d["MediaBox"] = rectArray(mediaBoxes[at.Media])
+				d["MediaBox"] = rectArray(mediaBoxOf(at))
 			}
 			if at.Crop > 0 {
-				d["CropBox"] = rectArray(cropBoxes[at.Crop-1])
+				d["CropBox"] = rectArray(cropBoxOf(at))
 			}
 			if at.Rot > 0 {
 				d["Rotate"] = pdf.Integer(rotations[at.Rot-1])
@@ -351,10 +427,10 @@ func checkCase(c *Case) error {
 			}
 			err = wr.AppendPageDict(ref, d)
 		default:
-			p := &page.Page{MediaBox: rectPtr(mediaBoxes[at.Media])}
+			p := &page.Page{MediaBox: rectPtr(mediaBoxOf(at))}
 			p.StructParents = optional.NewUInt(uint(id))
 			if at.Crop > 0 {
-				p.CropBox = rectPtr(cropBoxes[at.Crop-1])
+				p.CropBox = rectPtr(cropBoxOf(at))
 			}
 			if at.Rot > 0 {
 				p.Rotate = page.RotationFromDegrees(rotations[at.Rot-1])
@@ -589,6 +665,31 @@ func checkCase(c *Case) error {
 		}
 	}
 	c.obs.distinctAttr = len(attrSeen) >= 2
+	// near-equal boxes under one parent
+	for i := range wk.leaves {
+		ai := m.pages[wantOrder[i]].attr
+		if ai.Rot > 4 {
+			c.obs.rot360 = true
+		}
+		for j := i + 1; j < len(wk.leaves) && wk.leaves[j].parent == wk.leaves[i].parent; j++ {
+			aj := m.pages[wantOrder[j]].attr
+			near := false
+			if ai.Media < 3 && aj.Media < 3 {
+				x, y := mediaBoxOf(ai), mediaBoxOf(aj)
+				near = near || (x != y && fmt.Sprintf("%.2f", x) == fmt.Sprintf("%.2f", y))
+			}
+			if ai.Crop > 0 && aj.Crop > 0 {
+				x, y := cropBoxOf(ai), cropBoxOf(aj)
+				near = near || (x != y && fmt.Sprintf("%.2f", x) == fmt.Sprintf("%.2f", y))
+			}
+			if near {
+				c.obs.nearEqual = true
+				if ai.API != 0 && aj.API != 0 {
+					c.obs.nearEqualTyped = true
+				}
+			}
+		}
+	}
 
 	// ---- library readers against the walker
 	if n, err := pagetree.NumPages(r); err != nil || n != len(wk.leaves) {
